@@ -90,9 +90,21 @@ def check(ctx):
     cc = mod.func("_chunk_count")
     ok = len(cs) == 1 and unparse(cs[0].args[1]) == "_chunk_count" and unparse(cs[0].args[2]) == "chunk.sum" and any(Pat("np.ma.count(x, axis=axis, keepdims=keepdims)").match(r.value) is not None for r in returns(cc))
     ctx.ob("ALG.count", cnt, "ma.count = reduction(np.ma.count per block, chunk.sum)", ok, "" if ok else "per-block counts of unmasked elements must be summed")
+    # ---------------- masked results of std/nanstd: np.ma.masked is a 0-d constant
+    red = ctx.model.module("dask/array/reductions.py")
+    sq = red.func("_sqrt")
+    rm = [r for r in returns(sq) if unparse(r.value) == "np.ma.masked"]
+    ok = len(rm) == 1
+    if ok:
+        facts = {(unparse(e), pol) for e, pol in cfg_of(sq).facts(rm[0])}
+        ok = ("a.shape", False) in facts and ("a.mask.all()", True) in facts and ("isinstance(a, np.ma.masked_array)", True) in facts
+    ctx.ob("SHAPE.masked-scalar", sq, "_sqrt returns the 0-d constant np.ma.masked only for a 0-d, fully masked input", ok, "" if ok else "a fully masked block with dimensions is replaced by the 0-d constant: the block loses its shape (wrong result shape or IndexError when blocks are assembled)")
+    ok = any(unparse(r.value) == "np.sqrt(a)" for r in returns(sq))
+    ctx.ob("SHAPE.masked-scalar.else", sq, "everything else goes through np.sqrt(a)", ok)
 
 
 VARIANTS = [
+    ("dask/array/reductions.py", "    if isinstance(a, np.ma.masked_array) and not a.shape and a.mask.all():", "    if isinstance(a, np.ma.masked_array) and a.mask.all():", "SHAPE.masked-scalar"),
     (MA, "masked_less = _wrap_masked(np.ma.masked_less)", "masked_less = _wrap_masked(np.ma.masked_less_equal)", "NAME.wrappers"),
     (MA, "    return x.map_blocks(np.ma.masked_inside, v1, v2)", "    return x.map_blocks(np.ma.masked_outside, v1, v2)", "NAME.wrappers"),
     (MA, "    return x.map_blocks(np.ma.masked_outside, v1, v2)", "    return x.map_blocks(np.ma.masked_outside, v2, v1)", "ARG.forwarding"),
